@@ -270,6 +270,7 @@ def derivative_search(ctx, budget, honesty):
         shared_generator_probe(ctx, max(6, budget // 60))
         multistep_complex_family(ctx, max(80, budget // 5))
         elementary_table_family(ctx, None if ctx.thorough else 2)
+        scale_invariance_family(ctx, 400 if ctx.thorough else 60)
     ctx.notes.append('%d programs skipped: not finite at the complex points of the stencil' % skipped_nonfinite[0])
     ctx.notes.append('worst ratio / envelope per (method, n) on this run: %s'
                      % {('%s,%d' % k): float('%.2g' % v) for k, v in sorted(worst.items())})
@@ -327,6 +328,44 @@ def elementary_table_family(ctx, per_config):
                                       'relative error of (%s, n=%d, order=%d)' % (m, n, order), program=name, x=x, method=m, n=n, order=order,
                                       got=v, exact=exact(n), relative_error=e, envelope=env)
     ctx.notes.append('elementary table family: worst relative error / envelope = %.3g' % worst)
+
+
+def scale_invariance_family(ctx, budget):
+    """The envelope of the property is relative to the size of f: differentiating c*f must give c times the derivative of f.  For c a
+    power of two every floating-point operation of the pipeline scales exactly (no threshold of the library is absolute), so on the
+    unchanged tree the two results are bit-identical (2880 of 2880 configurations of the elementary table, c = 2^-100, 2^-70, 2^60);
+    asserted here to 1e-12 relative for the value.  (The error estimate is *not* homogeneous where a single quotient is all there is — the
+    complex-step defaults: estimate = (|value| eps + h) * 12.7, the recorded finding C02-single-quotient-unscaled — so it is not asserted.)"""
+    import numdifftools as nd
+    rng = ctx.rng
+    cases = elementary_cases()
+    worst = 0.0
+    for _ in range(budget):
+        name, f, x, exact = rng.choice(cases)
+        m = rng.choice(list(NMAX))
+        n = rng.randint(1, NMAX[m])
+        order = rng.randint(1, 8)
+        k = rng.choice([-100, -70, -40, 60])
+        c = 2.0 ** k
+        ctx.tried(('scale', name, x, m, n, order, k))
+        try:
+            with warnings.catch_warnings():
+                warnings.simplefilter('ignore')
+                v0, i0 = nd.Derivative(f, n=n, method=m, order=order, full_output=True)(x)
+                v1, i1 = nd.Derivative(lambda t, f=f, c=c: c * f(t), n=n, method=m, order=order, full_output=True)(x)
+        except Exception as ex:
+            ctx.violation('Derivative raised %r' % ex, program=name, x=x, method=m, n=n, order=order, scale='2**%d' % k)
+            continue
+        v0, v1 = float(v0), float(v1) / c
+        e0, e1 = float(i0.error_estimate), float(i1.error_estimate) / c
+        d = abs(v1 - v0) / max(abs(v0), 1e-300)
+        de = abs(e1 - e0) / max(abs(e0), 1e-300) if (math.isfinite(e0) and math.isfinite(e1)) else (0.0 if (e0 != e0 and e1 != e1) else float('inf'))
+        worst = max(worst, d)
+        if not d <= 1e-12:
+            ctx.violation('Derivative is not homogeneous: differentiating 2**k * f does not give 2**k times the derivative of f (an absolute '
+                          'threshold somewhere in the pipeline)', program=name, x=x, method=m, n=n, order=order, scale='2**%d' % k, derivative_of_f=v0,
+                          derivative_of_scaled_f_over_scale=v1, exact=float(exact(n)), relative_difference=d)
+    ctx.notes.append('scale invariance: worst relative difference %.3g' % worst)
 
 
 def multistep_complex_family(ctx, budget):
